@@ -110,6 +110,10 @@ type c14cScenario struct {
 	Idle       int    `json:"idle_restarts"`
 	Cluster    bool   `json:"cluster"`
 	Soft       bool   `json:"soft"` // explore one in-process restart (same RedisOutput object) after a lost-connection stop
+	// Pre: an earlier life of the same namespace (not judged): these units were replayed from a
+	// low offset, then the source answered with a full resync under the same run id (snapshot
+	// ending where the judged stream starts) and the tool stopped before replaying anything.
+	Pre []int `json:"pre,omitempty"`
 }
 
 func c14cExec(t *testing.T, scn c14cScenario, ch *mc.Chooser) (rec c14Rec, machinery string) {
@@ -141,6 +145,32 @@ func c14cExec(t *testing.T, scn c14cScenario, ch *mc.Chooser) (rec c14Rec, machi
 		idleLeft := scn.Idle
 		streamDone := false
 		events := 0
+		preClock := int64(0)
+		if len(scn.Pre) > 0 {
+			const p0 = int64(100)
+			setPark(false)
+			b := biBootWith(scn.Cfg, rc, "src", aofRunID, p0, true, nodeOf)
+			if b.err != nil {
+				machinery = "pre-history: start failed: " + b.err.Error()
+				return
+			}
+			r := biStart(b.ro, aofRunID, b.offset)
+			for i, l := range scn.Pre {
+				r.feed(redisd.EncodeCommandS("SET", c14cKeys[l], fmt.Sprintf("p%d", i)))
+			}
+			time.Sleep(150 * time.Millisecond)
+			vtime.Fire("frontier")
+			r.wait()
+			r.kill()
+			biForceFull = true
+			b2 := biBootWith(scn.Cfg, rc, "src", aofRunID, aofS0, true, nodeOf)
+			biForceFull = false
+			if b2.err != nil {
+				machinery = "pre-history: full resync failed: " + b2.err.Error()
+				return
+			}
+			preClock = cl.Clock()
+		}
 		for runNo := 0; runNo < scn.MaxCrashes+scn.Idle+2; runNo++ {
 			rr := c14Run{FirstSeq: int(cl.Clock()) + 1, Idle: streamDone}
 			if runNo > 0 {
@@ -313,6 +343,9 @@ func c14cExec(t *testing.T, scn c14cScenario, ch *mc.Chooser) (rec c14Rec, machi
 		}
 		// one merged log in global order; sequence numbers become the cluster stamps
 		for _, r := range cl.GlobalLog() {
+			if r.Stamp <= preClock {
+				continue
+			}
 			r.Seq = int(r.Stamp)
 			r.ExecSeq = int(r.ExecStamp)
 			if r.Txn != 0 {
